@@ -210,8 +210,6 @@ def rand_suite(tier, seed, sid0):
     for kind in list(ALL) + ["vec_h", "iter_h"]:
         base = {"vec_h": "vec", "iter_h": "iter"}.get(kind, kind)
         ps = gen.partial(base, sid0 + len(out))
-        if tier == "quick":
-            ps = ps[(seed % 3)::3]
         for sc in ps:
             sc["id"] = sid0 + len(out)
             sc["kind"] = kind
@@ -368,7 +366,7 @@ def dual_suite(tier, seed, sid0):
     for kind in ALL:
         ps = gen.partial(kind, 0)
         if tier == "quick":
-            ps = ps[(seed % 3)::3]
+            ps = ps[(seed % 2)::2]
         for sc in ps:
             sc["id"] = sid0 + len(out)
             sc["tag"] = {"suite": "dual_partial"}
